@@ -31,14 +31,14 @@ class meter:
         self.seconds = seconds
 
     def __enter__(self):
-        self.old = signal.signal(signal.SIGALRM, _alarm)
-        signal.setitimer(signal.ITIMER_REAL, self.seconds)
+        self.old = signal.signal(signal.SIGVTALRM, _alarm)
+        signal.setitimer(signal.ITIMER_VIRTUAL, self.seconds)
         self.t0 = time.perf_counter()
         return self
 
     def __exit__(self, *exc):
-        signal.setitimer(signal.ITIMER_REAL, 0)
-        signal.signal(signal.SIGALRM, self.old)
+        signal.setitimer(signal.ITIMER_VIRTUAL, 0)
+        signal.signal(signal.SIGVTALRM, self.old)
         self.elapsed = time.perf_counter() - self.t0
         return False
 
